@@ -26,6 +26,8 @@ G = DECGRAMMAR
 
 
 def run(ctx, ss):
+    from .common import keyword_vocabulary
+    ctx.guard("C07.1", keyword_vocabulary, ss, "C07.1", ('define', 'alias', 'chargeconj', 'particle_def', 'jetset_def', 'pythia_def', 'setlsbw', 'setlspw', 'yes', 'no'), ('LABEL_PYTHIA8_COMMANDS', 'LABEL_LINESHAPE', 'LABEL_INCLUDE_FACTOR', 'BOOLEAN_INCLUDE_FACTOR', 'LABEL_CHANGE_MASS'))
     for r, f in (("C07.1", c07_1), ("C07.2", c07_2), ("C07.4", c07_4), ("C07.5", c07_5),
                  ("C07.6", c07_6), ("C07.7", c07_7), ("C07.8", c07_8)):
         ctx.guard(r, f, ss)
